@@ -188,50 +188,53 @@ Fixpoint skip_zero (cur nxt : event) (stream : list event) (count : Z)
          end
   else Some (cur, nxt, stream, count).
 
-Definition kill (st : tstate) : tstate := mkT (t_stream st) (t_count st) (t_next st) (t_ie st) true.
+(* the track after it has finished (is_finished: the timeline removes it) or after an exception stopped it *)
+Definition dead : tstate := mkT [] 0 None None true.
 
-(* the `except StopIteration:` arm of the interpolating branch: open the next segment *)
-Definition advance (st : tstate) : outcome * tstate :=
-  match (match t_next st with
-         | Some e => Some (false, e, t_stream st, t_count st)
-         | None =>                                       (* first event: pull two *)
-             match get_next (t_stream st) (t_count st) with
-             | Some (e, r, c) => Some (true, e, r, c)
-             | None => None
-             end
-         end) with
-  | None => (ONone, kill st)                             (* StopIteration: is_finished *)
-  | Some (is_first, cur, s1, c1) =>
-      match get_next s1 c1 with
-      | None => (ONone, kill st)
-      | Some (nxt, s2, c2) =>
-          match skip_zero cur nxt s2 c2 with
-          | None => (ONone, kill st)
-          | Some (cur', nxt', s3, c3) =>
-              if negb (e_ctl cur' && e_ctl nxt') then (OInvalid, kill st)
-              else
-                let steps := dur_steps tpb (e_dur cur') in
-                match build_fields (e_fields cur') (e_fields nxt') with
-                | None => (OErr, kill st)
-                | Some fs =>
-                    (* if not is_first_event: next(self.interpolating_event) *)
-                    match (if is_first : bool then PVal fs
-                           else match pd_next mode steps fs with
-                                | PVal (_, fs') => PVal fs'
-                                | PStop => PStop
-                                | PErr => PErr
-                                end) with
-                    | PVal fs1 =>
-                        match pd_next mode steps fs1 with
-                        | PVal (vals, fs2) => (perform vals, mkT s3 c3 (Some nxt') (Some (steps, fs2)) false)
-                        | PStop => (ONone, kill st)
-                        | PErr => (OErr, kill st)
-                        end
-                    | PStop => (ONone, kill st)
-                    | PErr => (OErr, kill st)
+(* the `except StopIteration:` arm of the interpolating branch, from `self.current_event = self.next_event` on:
+   cur is the event that becomes current_event, (stream, count) what get_next_event will see *)
+Definition open_segment (is_first : bool) (cur : event) (stream : list event) (count : Z) : outcome * tstate :=
+  match get_next stream count with                      (* self.next_event = self.get_next_event() *)
+  | None => (ONone, dead)                                (* StopIteration: is_finished *)
+  | Some (nxt, s2, c2) =>
+      match skip_zero cur nxt s2 c2 with
+      | None => (ONone, dead)
+      | Some (cur', nxt', s3, c3) =>
+          (* if current.type != EVENT_TYPE_CONTROL or next.type != EVENT_TYPE_CONTROL: raise InvalidEventException *)
+          if negb (e_ctl cur' && e_ctl nxt') then (OInvalid, dead)
+          else
+            let steps := dur_steps tpb (e_dur cur') in
+            match build_fields (e_fields cur') (e_fields nxt') with
+            | None => (OErr, dead)
+            | Some fs =>
+                (* if not is_first_event: next(self.interpolating_event) *)
+                match (if is_first then PVal fs
+                       else match pd_next mode steps fs with
+                            | PVal (_, fs') => PVal fs'
+                            | PStop => PStop
+                            | PErr => PErr
+                            end) with
+                | PVal fs1 =>
+                    (* event = Event(next(self.interpolating_event), ...); self.perform_event(event) *)
+                    match pd_next mode steps fs1 with
+                    | PVal (vals, fs2) => (perform vals, mkT s3 c3 (Some nxt') (Some (steps, fs2)) false)
+                    | PStop => (ONone, dead)
+                    | PErr => (OErr, dead)
                     end
+                | PStop => (ONone, dead)
+                | PErr => (OErr, dead)
                 end
-          end
+            end
+      end
+  end.
+
+Definition advance (st : tstate) : outcome * tstate :=
+  match t_next st with
+  | Some e => open_segment false e (t_stream st) (t_count st)
+  | None =>                                              (* no events obtained yet: pull the first one; is_first_event = True *)
+      match get_next (t_stream st) (t_count st) with
+      | Some (e, r, c) => open_segment true e r c
+      | None => (ONone, dead)
       end
   end.
 
@@ -244,7 +247,7 @@ Definition tick (st : tstate) : outcome * tstate :=
            | PVal (vals, fs') =>
                (perform vals, mkT (t_stream st) (t_count st) (t_next st) (Some (steps, fs')) false)
            | PStop => advance st
-           | PErr => (OErr, kill st)
+           | PErr => (OErr, dead)
            end
        end.
 
